@@ -297,6 +297,13 @@ def run(ctx):
                            facts={**rfacts, 'clause': 'step'})
                 lo_c, hi_c = math.floor(cnt), math.ceil(cnt)
                 okl = rr[1].npts == int(cnt) if (even or fdec > 1) and len_exact else rr[1].npts in (lo_c, hi_c, L_f)
+                if not okl and float_class:
+                    # int(new_npts) truncates the BINARY64 product fl(1/m)*n, which can fall one ulp below an integer
+                    # (fl(1/49)*98 = 1.9999999999999998 -> 1): the rounding regime, counted, as for the even branch
+                    prod = float(fobj) * n
+                    if abs(prod - round(prod)) < 1e-9 and rr[1].npts in (round(prod) - 1, round(prod)):
+                        ctx.hist('resample: length decided by rounding of fl(factor)*npts')
+                        okl = True
                 ctx.oracle('C14.a resample_to_approx_dt length = factor*npts (2*trunc(./2) when even)', bool(okl), full_inputs,
                            detail={'npts': rr[1].npts, 'expected': float(cnt)}, facts={**rfacts, 'clause': 'length'})
                 if even:
@@ -382,7 +389,8 @@ def run(ctx):
                 k = fr(dt) / fr(float(dti))
                 ctx.oracle('C14.e the consumer refines by an integer factor >= 2', abs(k - round(k)) <= EPS50 * k and round(k) >= 2, inputs,
                            detail={'factor': float(k)})
-                ctx.oracle('C14.e the consumer keeps every original sample', np.array_equal(np.asarray(vi)[::round(k)][:len(a)], a), inputs)
+                ctx.oracle('C14.e the consumer keeps every original sample',
+                           round(k) >= 1 and np.array_equal(np.asarray(vi)[::max(1, round(k))][:len(a)], a), inputs)
                 sa = dh.pseudo_response_spectra(vi, dti, np.asarray(periods), 0.05)[2]
                 ctx.oracle('C14.e the spectrum is the one of the refined record', np.array_equal(np.asarray(asig.s_a), np.asarray(sa)), inputs)
         else:
@@ -439,7 +447,7 @@ def run(ctx):
     # ------------------------------------------------------------------------------------------------------------
     # random
     # ------------------------------------------------------------------------------------------------------------
-    n_random = 1500 if quick else 12000
+    n_random = 1500 if quick else 8000
     for i in range(n_random):
         if i % 3 == 0:
             kind = rng.choice(['dyadic', 'int', 'plateau', 'spike', 'step'])
